@@ -166,7 +166,7 @@ func c02Certs(p vbase.Params, r *vbase.Result) {
 	r.Assume("cryptographic hardness: forged means structurally forged (relabelled, replayed, repeated, truncated), never a break of the scheme")
 	reps := 2
 	if p.Thorough() {
-		reps = 12
+		reps = 120
 	}
 	idx := 0
 	for _, scheme := range Schemes {
